@@ -135,6 +135,26 @@ Variable signed : blskey -> payload -> Prop.
 Hypothesis bls_sound : forall pubs pl s, o_bls O pubs pl s = Some true -> forall k, In k pubs -> signed k pl.
 (* choose never returns a negative number (a fact about sortition.go's choose, C04) *)
 Hypothesis seats_nonneg : forall h st t tot j, o_seats O h st t tot = Some j -> (0 <= j)%Z.
+(* ECDSA: a signature that recovers to key k over hash hh was made by k over hh *)
+Variable sealed : key -> N -> Prop.
+Hypothesis ecdsa_sound : forall hh s k, o_recover O hh s = Some k -> sealed k hh.
+
+(* the header signature recovers, over the header's hash, to the very key that
+   signed the consensus data - the key the proposer credential is checked
+   against (proposer_ok) - hence that key sealed this header *)
+Definition seal_ok (h : header) : Prop :=
+  exists cd pk, h_cons h = Some cd /\ cd_signer cd = Some pk /\
+                o_recover O (h_hash h) (h_sig h) = Some pk /\ sealed pk (h_hash h).
+
+Lemma signature_inv : forall h, verify_signature O h = Accept -> seal_ok h.
+Proof.
+  intros h H. unfold verify_signature in H.
+  destruct (h_cons h) as [cd|] eqn:E1; [|discriminate].
+  destruct (cd_signer cd) as [pk|] eqn:E2; [|discriminate].
+  destruct (o_recover O (h_hash h) (h_sig h)) as [k|] eqn:E3; [|discriminate].
+  destruct (k =? pk) eqn:E4; [|discriminate]. apply N.eqb_eq in E4. subst k.
+  exists cd, pk. repeat split; auto. eapply ecdsa_sound; eauto.
+Qed.
 
 (* the proposer credential verifies under threshold [pt] *)
 Definition proposer_ok (lb : lookback) (seed : N) (cd : consdata) (pt : N) : Prop :=
@@ -282,7 +302,7 @@ Qed.
 Theorem asis_accept_outside : forall cp vers seedH lb certH certlb h,
   verify_main O asis cp vers seedH lb certH certlb h = Accept ->
   finding_class O cp vers seedH lb certH certlb h = false ->
-  C01_statement cp vers seedH lb certH certlb h.
+  C01_statement cp vers seedH lb certH certlb h /\ seal_ok h.
 Proof.
   intros cp vers seedH lb certH certlb h HA HF.
   apply main_accept in HA as (seedCon & cd & uv & H1 & H2 & H3 & _ & HP & HQ & _ & HC).
@@ -294,6 +314,11 @@ Proof.
   assert (Evt : cd_vt cd = cp_vt cp) by lia.
   assert (Esub : cd_sub cd <> 0) by lia.
   assert (Emem : is_member val = true) by (destruct (is_member val); [reflexivity|discriminate]).
+  assert (Eseal : o_recover O (h_hash h) (h_sig h) = Some pk).
+  { match goal with Hx : negb (match o_recover O (h_hash h) (h_sig h) with _ => _ end) = false |- _ =>
+      destruct (o_recover O (h_hash h) (h_sig h)) as [b|]; [|discriminate Hx];
+      apply Bool.negb_false_iff, N.eqb_eq in Hx; subst; reflexivity end. }
+  split; [|exists cd, pk; repeat split; auto; eapply ecdsa_sound; eauto].
   exists seedCon, cd, uv.
   split; [exact H1|]. split; [exact H2|]. split; [exact H3|].
   split.
@@ -314,11 +339,16 @@ Qed.
 Theorem side_accept : forall V cp vers seedH lb certH certlb h parent,
   verify_side O V cp vers seedH lb certH certlb h parent = Accept ->
   exists p, parent = Some p /\ h_number h = h_number p + 1 /\ h_parent h = h_hash p /\
-            verify_main O V cp vers seedH lb certH certlb h = Accept.
+            verify_main O V cp vers seedH lb certH certlb h = Accept /\
+            (check_seal V = true -> seal_ok h).
 Proof.
   intros until parent. unfold verify_side. destruct parent as [p|]; [|discriminate].
-  destruct ((h_number h =? h_number p + 1) && (h_parent h =? h_hash p)) eqn:E; cbn; [|discriminate].
-  intros H. exists p. repeat split; auto; lia.
+  destruct ((h_number h =? h_number p + 1) && (h_parent h =? h_hash p)) eqn:E; cbn [negb]; [|discriminate].
+  intros H. exists p. split; [reflexivity|]. split; [lia|]. split; [lia|].
+  destruct (check_seal V).
+  - destruct (verify_signature O h) eqn:ES; try discriminate.
+    split; [exact H|]. intros _. apply signature_inv. exact ES.
+  - split; [exact H|]. discriminate.
 Qed.
 
 End Main.
